@@ -30,6 +30,8 @@ type Session struct {
 	hs            *noise.HandshakeState
 	initHelloTime tai64.TAI64N
 	remoteKey     publicKey
+	// consumed holds the hashes of the peer's handshake messages that advanced this session.
+	consumed [4]*[32]byte
 
 	// ciphers
 	cipherOut, cipherIn noise.Cipher
@@ -244,6 +246,7 @@ func (s *Session) readHandshake(msg Message) error {
 		s.initHelloTime = res.Timestamp
 		s.msgCache[1] = res.RespHello
 		s.cipherOut, s.cipherIn = res.CipherOut, res.CipherIn
+		s.markConsumed(msg)
 		s.hsIndex = 1
 
 	case s.isInit && s.hsIndex == 0 && nonce == nonceRespHello:
@@ -254,6 +257,7 @@ func (s *Session) readHandshake(msg Message) error {
 		s.msgCache[2] = res.InitDone
 		s.cipherOut, s.cipherIn = res.CipherOut, res.CipherIn
 		s.remoteKey = res.RemoteKey
+		s.markConsumed(msg)
 		s.hsIndex = 2 // the initiator doesn't know if the server got the initDone yet.
 	case !s.isInit && s.hsIndex == 1 && nonce == nonceInitDone:
 		res, err := readInitDone(s.hs, &s.remoteKey, s.cipherIn, s.cipherOut, msg)
@@ -262,19 +266,32 @@ func (s *Session) readHandshake(msg Message) error {
 		}
 		s.msgCache[3] = res.RespDone
 		s.nonce = noncePostHandshake
+		s.markConsumed(msg)
 		s.hsIndex = 3
 	case s.isInit && s.hsIndex == 2 && nonce == nonceRespDone:
 		if err := readRespDone(s.cipherIn, msg); err != nil {
 			return err
 		}
+		s.markConsumed(msg)
 		s.hsIndex = 4
 		s.nonce = noncePostHandshake
 	case (s.isInit && nonce%2 == 1) || (!s.isInit && nonce%2 == 0):
+		// Only an exact repeat of a message which this session has already processed is
+		// answered again (by writeHandshake); any other message with one of the peer's
+		// counters belongs to a different handshake.
+		if h := s.consumed[nonce]; h == nil || *h != blake2b.Sum256(msg) {
+			return errors.New("message not for this session")
+		}
 		return nil
 	default:
 		return errors.New("message not for this session")
 	}
 	return nil
+}
+
+func (s *Session) markConsumed(msg Message) {
+	h := blake2b.Sum256(msg)
+	s.consumed[msg.GetNonce()] = &h
 }
 
 // writeInit writes an InitHello message to out using hs, and initHelloTime
